@@ -117,6 +117,20 @@ def fr_of(x):
 # ---------------------------------------------------------------------------------------------
 QUART = ["0", "1/4", "1/2", "3/4", "1"]
 GAMMAS = ["1/2", "3/4", "7/8", "9/10", "19/20", "1"]
+NEAR = ["1048575/1048576", "1/1073741824"]        # 1 - 2^-20 and 2^-30: exact doubles next to the boundaries
+
+
+def prob_choice(rng, base):
+    return rng.choice(NEAR) if rng.random() < .1 else rng.choice(base)
+
+
+def gamma_choice(rng, base):
+    r = rng.random()
+    if r < .04:
+        return "0"
+    if r < .05:
+        return "1048575/1048576"    # value iteration runs to its iteration cap: kept rare
+    return rng.choice(base)
 
 
 def rand_rows(rng, alphabet, weights, hmax=4, wmax=5, need=None):
@@ -153,7 +167,7 @@ def cut(rng, rows, c):
 def gen_gridworld(rng, rows=None, simple=False):
     alphabet = [".", "#", "g", "s", "x", "a", "c"]
     weights = [45, 15, 8, 10, 10, 6, 6]
-    feats = {"cut": False, "nostart": False, "overlap": False}
+    feats = {"cut": False, "nostart": False, "overlap": False, "emptyroles": False}
     if rows is None:
         rows = rand_rows(rng, alphabet, weights)
         if rng.random() < .2:
@@ -169,48 +183,62 @@ def gen_gridworld(rng, rows=None, simple=False):
     elif not simple and r < .25:     # overlapping roles are accepted by the constructor
         absf, wallf, inif = ["g", "a"], ["#", "a"], ["s", "g"]
         feats["overlap"] = True
-    gamma = rng.choice(GAMMAS)
+    elif not simple and r < .30:     # empty feature-role collections
+        absf, wallf, inif = rng.choice([([], ["#"], ["s"]), (["g"], [], ["s"]), ([], [], ["s"])])
+        feats["emptyroles"] = True
+    gamma = gamma_choice(rng, GAMMAS)
+    big = not simple and rng.random() < .06
     if simple or rng.random() < .15:
         fr = None
     else:
         fr = {}
         for f in rng.sample(["g", "x", "a", "c", "s", "#"], rng.randint(0, 4)):
-            v = F(rng.randint(-40, 40), 4)
-            if f not in absf and v > 0 and gamma == "1":
-                v = -v          # gamma = 1: no positive-reward cycles (value iteration would not converge)
+            v = F(rng.choice([-1000000, 1000000, -65536, 1000])) if big else F(rng.randint(-40, 40), 4)
+            if f not in absf and v > 0 and F(gamma) > F(99, 100):
+                v = -v          # gamma ~ 1: no positive-reward cycles (value iteration would not converge)
             fr[f] = str(v)
-    step = rng.choice(["-1", "-1", "-1/2", "0", "-2", "1/4"])
-    if gamma == "1" and F(step) > 0:
+    step = rng.choice(["-1", "-1", "-1/2", "0", "-2", "1/4"]) if not big else rng.choice(["-1000", "-1"])
+    if F(gamma) > F(99, 100) and F(step) > 0:
         step = "-1"
     rows = ["".join(r) for r in rows]
     feats["nostart"] = not any(c in inif for r in rows for c in r)
-    case = {"kind": "gridworld", "rows": rows, "tile_as": rng.choice(["list", "str"]),
+    case = {"kind": "gridworld", "rows": rows, "tile_as": rng.choice(["list", "str", "tuple", "str_padded"]),
+            "feat_form": rng.choice(["tuple", "list", "str"]), "frew_form": rng.choice(["dict", "pairs"]),
+            "ints": rng.random() < .4, "decoy": rng.random() < .3,
             "absorbing_features": absf, "wall_features": wallf, "initial_features": inif,
-            "feature_rewards": fr, "step_cost": step, "success_prob": rng.choice(["0", "1/4", "1/2", "3/4", "1", "1"]),
+            "feature_rewards": fr, "step_cost": step,
+            "success_prob": prob_choice(rng, ["0", "1/4", "1/2", "3/4", "1", "1"]),
             "discount_rate": gamma, "plan": not feats["nostart"], "feats": feats}
     return case
 
 
-def gen_windy(rng, default_fr=False):
+def gen_windy(rng, default_fr=False, rows=None, wp=None):
     alphabet = [".", "#", "$", "@", "^", "v", "<", ">", "x"]
     weights = [40, 12, 6, 8, 7, 7, 7, 7, 6]
-    rows = rand_rows(rng, alphabet, weights)
+    fixed = rows is not None
+    rows = [list(r) for r in rows] if fixed else rand_rows(rng, alphabet, weights)
     feats = {"cut": False}
-    if rng.random() < .15:
+    if not fixed and rng.random() < .15:
         cut(rng, rows, "$")
         feats["cut"] = True
-    if not any("@" in r for r in rows) or rng.random() < .2:
+    if not any("@" in r for r in rows) or (not fixed and rng.random() < .2):
         place(rng, rows, "@", rng.randint(1, 2))
-    gamma = rng.choice(["1/2", "3/4", "9/10", "19/20", "99/100", "1"])
+    gamma = gamma_choice(rng, ["1/2", "3/4", "9/10", "19/20", "99/100", "1"])
+    startf, goalf, wallf = rng.choice([(None, None, None)] * 3 + [("@$", "$", "#"), ("@x", "$x", "#"), ("@", "$", "#x")])
+    goals = goalf or "$"
+    wprob = wp if wp is not None else prob_choice(rng, QUART)
+    big = rng.random() < .06 and wprob not in NEAR
     fr = {}
     for f in rng.sample(["x", "$", ".", "^", "@"], rng.randint(0, 3)):
-        v = F(rng.randint(-40, 40), 4)
-        if f != "$" and v > 0 and gamma == "1":
+        v = F(rng.choice([-1000000, 1000000, -65536, 1000])) if big else F(rng.randint(-40, 40), 4)
+        if f not in goals and v > 0 and F(gamma) > F(99, 100):
             v = -v
         fr[f] = str(v)
     return {"kind": "windy", "rows": ["".join(r) for r in rows], "feature_rewards": None if default_fr else fr,
             "step_cost": rng.choice(["-1", "-1/2", "0"]), "wall_bump_cost": rng.choice(["-1", "0", "-5/2"]),
-            "wind_probability": rng.choice(QUART), "discount_rate": gamma, "feats": feats}
+            "wind_probability": wprob, "discount_rate": gamma, "feats": feats,
+            "start_features": startf, "goal_features": goalf, "wall_features": wallf,
+            "pad": rng.random() < .4, "ints": rng.random() < .4, "decoy": rng.random() < .3}
 
 
 def gen_hh(rng, default=False):
@@ -227,9 +255,10 @@ def gen_hh(rng, default=False):
         if not any("s" in r for r in rows) or rng.random() < .2:
             place(rng, rows, "s", 1)
         rows = ["".join(r) for r in rows]
-    return {"kind": "heavenorhell", "rows": rows, "coherence": rng.choice(QUART),
-            "discount_rate": rng.choice(["1/2", "3/4", "19/20", "1"]), "step_cost": rng.choice(["-1", "-1/2", "0"]),
-            "heaven_reward": rng.choice(["50", "10"]), "hell_reward": rng.choice(["-50", "-10", "0"]), "feats": feats}
+    return {"kind": "heavenorhell", "rows": rows, "coherence": prob_choice(rng, QUART),
+            "discount_rate": gamma_choice(rng, ["1/2", "3/4", "19/20", "1"]), "step_cost": rng.choice(["-1", "-1/2", "0"]),
+            "heaven_reward": rng.choice(["50", "10", "0", "1000000"]), "hell_reward": rng.choice(["-50", "-10", "0", "-1000000"]),
+            "feats": feats, "pad": rng.random() < .4, "ints": rng.random() < .4, "decoy": rng.random() < .3}
 
 
 def gen_cases(rng, tier):
@@ -245,12 +274,17 @@ def gen_cases(rng, tier):
                 cases.append(gen_gridworld(rng, rows=rows, simple=True))
     for _ in range(nwd):
         cases.append(gen_windy(rng))
+    # rarely taken branches of _effect_of_walls: wind pushes off the grid and the action leaves on the other axis
+    # (both clamps + two bump costs), wind into a wall, wind along a border, every wind direction at a corner
+    for rows in (["<@"], ["@>"], ["v@"], ["^", "@"], ["@", "v"], ["<.", "@."], [".>", ".@"], ["#<@"], [">#", "@."], ["^@", "#."]):
+        for wp in ("1", "1/2"):
+            cases.append(gen_windy(rng, rows=rows, wp=wp))
     cases.append(gen_windy(rng, default_fr=True))
     for i in range(nhh):
         cases.append(gen_hh(rng, default=(i == 0)))
-    for c in QUART:
-        for g in (["3/4", "19/20"] if tier == "quick" else ["1/2", "3/4", "19/20", "1"]):
-            cases.append({"kind": "tiger", "coherence": c, "discount_rate": g})
+    for c in QUART + NEAR:
+        for g in (["3/4", "19/20"] if tier == "quick" else ["0", "1/2", "3/4", "19/20", "1"]):
+            cases.append({"kind": "tiger", "coherence": c, "discount_rate": g, "ints": c in ("0", "1") and g == "3/4"})
     for n in ([1, 2, 3, 4, 5, 8] if tier == "quick" else list(range(1, 14)) + [20]):
         cases.append({"kind": "loadunload", "nstates": n, "discount_rate": rng.choice(["1/2", "19/20", "99/100"])})
     cases.append({"kind": "cliff"})
@@ -463,6 +497,40 @@ def gw_oracle(case, res):
     return out
 
 
+def gw_branches(case, res, acc):
+    """which branch of GridWorld.next_state_dist / reward each (state, action) went through (measured on the inputs)"""
+    rows = case["rows"]
+    h, w = len(rows), len(rows[0])
+
+    def feat(s):
+        x, y = s
+        c = rows[h - 1 - y][x] if 0 <= x < w and 0 <= y < h else None
+        return None if c in (None, ".") else c
+    fr = gw_frew(case)
+    for s, row in zip(res["state_list"], res["rows"]):
+        s = tuple(s)
+        for a in row.get("actions", []):
+            t = (s[0] + a[0], s[1] + a[1])
+            if s == (-1, -1):
+                b = "terminal"
+            elif feat(s) in case["absorbing_features"]:
+                b = "absorbing-feature-cell"
+            elif not (0 <= t[0] < w and 0 <= t[1] < h):
+                b = "off-grid"
+            elif feat(t) in case["wall_features"]:
+                b = "wall" + ("-from-a-wall-cell" if feat(s) in case["wall_features"] else "")
+            elif t == s:
+                b = "no-op-action"
+            elif F(case["success_prob"]) != 1:
+                b = "slip-mix" + ("-p0" if F(case["success_prob"]) == 0 else "")
+            else:
+                b = "deterministic-move"
+            acc[b] = acc.get(b, 0) + 1
+            if b in ("slip-mix", "deterministic-move"):
+                k = "reward:" + ("feature-with-reward" if feat(t) in fr else "feature-without-reward" if feat(t) else "plain-cell")
+                acc[k] = acc.get(k, 0) + 1
+
+
 def gw_compare(case, res, val):
     """exact diff of the mirror dump against msdm; returns list of difference names"""
     diffs = []
@@ -639,7 +707,8 @@ def windy_term(case, res):
     fr = case["feature_rewards"] or {}
     w = "(mkWindy %s %s %s %s %s %s %s %s)" % (
         rowsl(case["rows"]), frewl(fr), ql(case["step_cost"]), ql(case["wall_bump_cost"]), ql(case["wind_probability"]),
-        symlist("@"), symlist("$"), symlist("#"))
+        symlist(case.get("start_features") or "@"), symlist(case.get("goal_features") or "$"),
+        symlist(case.get("wall_features") or "#"))
     return "windy_dump %s %s" % (w, coqlist(posl(s) for s in res["state_list"]))
 
 
@@ -685,6 +754,7 @@ def run(ctx):
     terms, meta = [], []
     counts = {}
     stage_fail = {}
+    branches = {}
 
     sig_count = {}
 
@@ -742,8 +812,14 @@ def run(ctx):
                 viol(case, "tabular-arrays-malformed", {"arrays": ar})
         if "plan" in res and not (res["plan"]["finite"] and res["plan"]["policy_ok"]):
             viol(case, "value-iteration-result-not-finite", {"plan": res["plan"]})
+        if res.get("requery_same") is not True and not outside and "next" not in se:
+            viol(case, "object-reuse-changes-answers",
+                 {"clause": "the same domain object, asked again after its arrays were built and it was planned on, "
+                            "returns different state list / actions / distributions / rewards", "requery": res.get("requery_same")})
         for k in se:
             stage_fail[kind + ":" + k] = stage_fail.get(kind + ":" + k, 0) + 1
+        if kind == "gridworld":
+            gw_branches(case, res, branches)
         nostart = kind == "gridworld" and case["feats"]["nostart"]
         if not nostart:
             t, bad = wf_term(res)
@@ -848,9 +924,14 @@ def run(ctx):
         "samples": [{"case": cases[0], "impl_state_list": impl[0].get("state_list")}] if cases else [],
         "certificate_checks": nwf, "mirror_comparisons": nmir, "cases_per_domain": counts,
         "mirror_differences": mirror_diffs, "impl_stage_errors": stage_fail,
-        "gridworld_features": {k: sum(1 for c in gwc if c["feats"][k]) for k in ("cut", "nostart", "overlap")},
+        "gridworld_features": {k: sum(1 for c in gwc if c["feats"].get(k)) for k in ("cut", "nostart", "overlap", "emptyroles")},
         "gridworld_sizes": sorted({"%dx%d" % (len(c["rows"][0]), len(c["rows"])) for c in gwc}),
         "success_probs": {p: sum(1 for c in gwc if c["success_prob"] == p) for p in QUART},
-        "cases": len(cases), "violation_signature_counts": sig_count,
+        "cases": len(cases), "violation_signature_counts": sig_count, "gridworld_branch_counts": branches,
+        "representations": {k: sum(1 for c in cases if c.get(k)) for k in ("ints", "decoy", "pad")},
+        "gridworld_forms": {f: sum(1 for c in gwc if c.get("tile_as") == f or c.get("feat_form") == f or c.get("frew_form") == f)
+                            for f in ("list", "str", "tuple", "str_padded", "dict", "pairs")},
+        "near_boundary_probabilities": sum(1 for c in cases if c.get("success_prob") in NEAR or c.get("wind_probability") in NEAR
+                                           or c.get("coherence") in NEAR),
         "seconds": {"impl": round(t_impl, 1), "coq": round(t_coq, 1)},
     })
